@@ -46,3 +46,61 @@ Proof.
   rewrite Hf, He, Nat.eqb_refl. reflexivity.
 Qed.
 Print Assumptions C20_layout.
+
+(* fewer than three columns ends the input *)
+Theorem C20_eof_lemma cols : length cols < 3 -> from_ascii_m cols = Err E_eof.
+Proof. intros H. unfold from_ascii_m. apply Nat.ltb_lt in H. now rewrite H. Qed.
+
+(* a result is only produced when every flag column parsed as an integer in {0,1,2,3,4,9},
+   the flags are exactly columns 3..3+n-1 and the values columns 3+n.. in alternation *)
+Theorem C20_accept_shape cols s : from_ascii_m cols = Ok s ->
+  let n := length (s_flags s) in
+  length cols = 3 * (n + 1) /\
+  forallb flag_ok (s_flags s) = true /\
+  all_some t_int (slice cols 3 (3 + n)) = Some (s_flags s) /\
+  (exists fe, all_some t_float (skipn (3 + n) cols) = Some fe /\ s_flux s = stride2 fe /\ s_err s = stride2_1 fe) /\
+  length (s_flux s) = n /\ length (s_err s) = n /\
+  s_name s = t_key (nth 0 cols (Build_token 0 None None)) /\
+  t_float (nth 1 cols (Build_token 0 None None)) = Some (s_x s) /\
+  t_float (nth 2 cols (Build_token 0 None None)) = Some (s_y s).
+Proof.
+  intros H. destruct (C20_reject cols s H) as [m Hm].
+  unfold from_ascii_m in H. destruct (length cols <? 3) eqn:E3; [discriminate|].
+  destruct (t_float (nth 1 cols _)) as [x|] eqn:Ex; [|discriminate].
+  destruct (t_float (nth 2 cols _)) as [y|] eqn:Ey; [|discriminate].
+  replace ((length cols - 3) / 3) with m in H by lia.
+  destruct (all_some t_int _) as [flags|] eqn:Ef; [|discriminate].
+  destruct (negb (forallb flag_ok flags)) eqn:Eok; [discriminate|].
+  destruct (all_some t_float _) as [fe|] eqn:Efe; [|discriminate].
+  destruct (negb (length (stride2 fe) =? length flags)) eqn:L1; [discriminate|].
+  destruct (negb (length (stride2_1 fe) =? length flags)) eqn:L2; [discriminate|].
+  inversion H; subst s; clear H. cbn [s_flags s_flux s_err s_name s_x s_y].
+  apply negb_false_iff in Eok. apply negb_false_iff, Nat.eqb_eq in L1. apply negb_false_iff, Nat.eqb_eq in L2.
+  assert (Hfl : length flags = m).
+  { apply all_some_length in Ef. unfold slice in Ef. rewrite firstn_length, skipn_length in Ef. lia. }
+  rewrite Hfl. repeat split; try assumption; try lia.
+  exists fe. repeat split; assumption.
+Qed.
+
+(* a flag column that is not an integer, or an integer outside {0,1,2,3,4,9}, is rejected *)
+Theorem C20_flags_lemma cols s i : from_ascii_m cols = Ok s -> i < length (s_flags s) ->
+  exists z, t_int (nth (3 + i) cols (Build_token 0 None None)) = Some z /\ flag_ok z = true.
+Proof.
+  intros H Hi. destruct (C20_accept_shape cols s H) as (Hlen & Hok & Hfl & _).
+  set (n := length (s_flags s)) in *.
+  assert (G : forall (l : list token) (zs : list Z), all_some t_int l = Some zs ->
+              forall j, j < length zs -> t_int (nth j l (Build_token 0 None None)) = Some (nth j zs 0%Z)).
+  { induction l as [|t r IH]; intros zs E j Hj; simpl in E.
+    - inversion E; subst. simpl in Hj. lia.
+    - destruct (t_int t) eqn:Et; [|discriminate]. destruct (all_some t_int r) eqn:Er; [|discriminate].
+      inversion E; subst. destruct j; simpl; [exact Et|]. apply IH; [reflexivity|simpl in Hj; lia]. }
+  exists (nth i (s_flags s) 0%Z). split.
+  - rewrite <- (G _ _ Hfl i Hi). unfold slice. replace (3 + n - 3) with n by lia.
+    assert (Hn : forall (l : list token) k j d, j < k -> nth j (firstn k l) d = nth j l d).
+    { induction l as [|a l IHl]; intros k j d Hjk; destruct k, j; simpl; try lia; try reflexivity. apply IHl. lia. }
+    rewrite Hn by (fold n; lia).
+    assert (Hs : forall (l : list token) k j d, nth j (skipn k l) d = nth (k + j) l d).
+    { induction l as [|a l IHl]; intros k j d; destruct k; simpl; try reflexivity; [destruct j; reflexivity|apply IHl]. }
+    rewrite Hs. reflexivity.
+  - rewrite forallb_forall in Hok. apply Hok. apply nth_In. exact Hi.
+Qed.
